@@ -1,4 +1,4 @@
-import MgpuModel.C19
+import MgpuModel.C19_Base
 /-! Helper lemmas for C19: page-table update and the re-homing step. -/
 namespace C19
 
